@@ -200,11 +200,30 @@ func doEncode(out netty.OutboundHandler, payload []byte, carrier int) (res []byt
 
 // owned != nil: the []byte carrier is this very slice (a sub-slice of a larger buffer of the caller's,
 // with spare capacity behind it) instead of a private copy of payload
+type failingSized struct {
+	data   []byte
+	pos    int
+	failAt int
+}
+
+func (f *failingSized) Len() int { return len(f.data) - f.pos }
+func (f *failingSized) Read(p []byte) (int, error) {
+	if f.pos >= f.failAt {
+		return 0, errors.New("body stream failed")
+	}
+	n := copy(p, f.data[f.pos:f.failAt])
+	f.pos += n
+	return n, nil
+}
+
 func doEncodeOwned(out netty.OutboundHandler, payload []byte, carrier int, owned []byte) (res []byte, status string) {
+	emitted := 0
 	defer func() {
 		if r := recover(); r != nil {
 			if isRuntimeFault(r) {
 				status = "fault"
+			} else if emitted > 0 {
+				status = "partial" // failed after part of the frame had already been passed down the pipeline
 			} else {
 				status = "raise"
 			}
@@ -230,6 +249,8 @@ func doEncodeOwned(out netty.OutboundHandler, payload []byte, carrier int, owned
 		msg = io.LimitReader(bytes.NewReader(append([]byte(nil), payload...)), int64(len(payload)))
 	case 7:
 		msg = bufio.NewReaderSize(bytes.NewReader(append([]byte(nil), payload...)), 16)
+	case 8: // a sized body stream (it has Len()) whose Read fails half way
+		msg = &failingSized{data: append([]byte(nil), payload...), failAt: len(payload) / 2}
 	default:
 		h := len(payload) / 2
 		msg = [][]byte{append([]byte(nil), payload[:h]...), append([]byte(nil), payload[h:]...)}
@@ -243,6 +264,7 @@ func doEncodeOwned(out netty.OutboundHandler, payload []byte, carrier int, owned
 		}
 		got = append(got, b...)
 		n++
+		emitted++
 	}}
 	out.HandleWrite(ctx, msg)
 	if n == 0 {
@@ -537,6 +559,9 @@ func runC04(prop string, seed int64, count int) {
 				continue
 			}
 			carrier := rng.Intn(8)
+			if rng.Intn(12) == 0 {
+				carrier = 8
+			}
 			enc, st := doEncode(out, p, carrier)
 			if st == "ok" {
 				emit("%s enc %s %s %d %s", prop, s, hexOrDash(p), carrier, hexOrDash(enc))
